@@ -2,6 +2,7 @@ package main
 
 import (
 	"context"
+	"sync"
 
 	"github.com/akrennmair/updog"
 	"github.com/akrennmair/updog/internal/convert"
@@ -15,6 +16,7 @@ func init() {
 	verifHarnesses["HarnessC13Batch"] = HarnessC13Batch
 	verifHarnesses["HarnessC13Convert"] = HarnessC13Convert
 	verifHarnesses["HarnessC13Invalid"] = HarnessC13Invalid
+	verifHarnesses["HarnessC13Concurrent"] = HarnessC13Concurrent
 	verifHarnesses["HarnessC14Malformed"] = HarnessC14Malformed
 }
 
@@ -319,6 +321,77 @@ func HarnessC14Malformed() {
 	probe := &proto.QueryRequest{Queries: []*proto.Query{{Expr: pEq("a", "x")}}}
 	pr, perr := s.Query(context.Background(), probe)
 	verifAssert(perr == nil && pr != nil && len(pr.Results) == 1 && pr.Results[0].TotalCount == 2, "C14: a well-formed request after a malformed one is not answered correctly")
+	idx.Close()
+	verifReach("end")
+}
+
+// HarnessC13Concurrent: two requests in flight at once on one server (as grpc-go runs them:
+// one goroutine per RPC), the same query or two different ones, with or without a cache.
+// Happens-before race detection over the handlers, every interleaving at synchronisation
+// points within the preemption bound; each response must be the library's answer, and the
+// server must still answer a probe afterwards (C14).
+func HarnessC13Concurrent() {
+	path := verifTempPath("c13c.updog")
+	srvBuild(path)
+	var opts []updog.IndexOption
+	if verifBool("cache") {
+		opts = append(opts, updog.WithCache(updog.NewLRUCache(^uint64(0))))
+	}
+	idx, err := updog.OpenIndex(path, opts...)
+	if err != nil {
+		panic(err)
+	}
+	s := &server{idx: idx}
+	qs := srvQueries()
+	pick := []int{1, 2} // grouped queries with NOT / OR sub-expressions
+	fi := verifChoice("first", 2)
+	first := pick[fi]
+	second := []int{first, pick[1-fi], 0}[verifChoice("second", 3)] // the same query, the other grouped one, an ungrouped one
+	// reference answers, computed beforehand on a separate handle of the same data
+	refPath := verifTempPath("c13c_ref.updog")
+	srvBuild(refPath)
+	ref, err := updog.OpenIndex(refPath)
+	if err != nil {
+		panic(err)
+	}
+	want := make([]*updog.Result, 2)
+	for i, qi := range []int{first, second} {
+		r, err := ref.Execute(qs[qi].lib)
+		if err != nil {
+			panic(err)
+		}
+		want[i] = r
+	}
+	ref.Close()
+	resps := make([]*proto.QueryResponse, 2)
+	errs := make([]error, 2)
+	var wg sync.WaitGroup
+	verifPreemptions(1 + verifTier())
+	verifSchedule(true)
+	verifLockset(true)
+	for g, qi := range []int{first, second} {
+		wg.Add(1)
+		go func(g, qi int) {
+			defer wg.Done()
+			// every RPC carries its own decoded message
+			req := &proto.QueryRequest{Queries: []*proto.Query{{Expr: srvQueries()[qi].pb.Expr, GroupBy: srvQueries()[qi].pb.GroupBy, Id: int32(10 + g)}}}
+			resps[g], errs[g] = s.Query(context.Background(), req)
+		}(g, qi)
+	}
+	wg.Wait()
+	verifLockset(false)
+	verifSchedule(false)
+	verifRaceFree("C13: concurrent requests access shared state without a common lock")
+	for g := 0; g < 2; g++ {
+		verifAssert(errs[g] == nil && resps[g] != nil && len(resps[g].Results) == 1, "C13: a well-formed request sent concurrently with another one was not answered")
+		if errs[g] == nil && resps[g] != nil && len(resps[g].Results) == 1 {
+			verifAssert(resps[g].Results[0].QueryId == int32(10+g), "C13: a concurrent request got a result tagged with another id")
+			verifAssert(srvSameResult(resps[g].Results[0], want[g]), "C13: a request sent concurrently with another one got a result that differs from the library's")
+		}
+	}
+	probe := &proto.QueryRequest{Queries: []*proto.Query{{Expr: pEq("a", "x")}}}
+	pr, perr := s.Query(context.Background(), probe)
+	verifAssert(perr == nil && pr != nil && len(pr.Results) == 1 && pr.Results[0].TotalCount == 2, "C14: a well-formed request after concurrent ones is not answered correctly")
 	idx.Close()
 	verifReach("end")
 }
